@@ -65,8 +65,10 @@ func C11(c *run.Ctx) int {
 		id := fmt.Sprintf("prog-%d", i)
 		return id, c11Eval(c, id, prog, run.NewRng(seed^0x11), perProg)
 	})
+	c11Templates(c)
 	return c.Finish("valid generated programs, each subjected to single rule-breaking injections (undeclared identifier / function / type / member, call arity and argument type, discarded @must_use result, false const_assert incl. float and builtin conditions, @group without @binding and vice versa, array size 0 / negative (literal and const), swizzle mixing or exceeding width, missing @workgroup_size, constant division by zero in several const contexts, missing semicolon, removed closing delimiter) at random applicable sites (nested blocks, continuing blocks, helpers, entry points, const initialisers, builtin arguments); "+
 		"oracle: the one-call compile API must return an error and no output; the reported position must lie inside the source, inside the enclosing module-scope declaration for semantic errors, and at the first token that cannot continue the grammar for syntax errors; "+
+		"plus a fixed grid of ill-typed / undeclared calls (6 forms) x 23 statement positions (let, for init / condition / update, while, if, switch selector and body, continuing, break-if, index, nested argument, ...) x callee declared before / after the caller, each next to its well-formed sibling that must compile; "+
 		"distinct = distinct (rule, variant, site context) triples observed rejected; counters per rule",
 		[]string{"the uninjected program is valid (checked: it must compile, otherwise the case is inconclusive)", "an injection is the only error in the program by construction"})
 }
